@@ -32,11 +32,11 @@ for f in $d/demo/*.rs; do
   [ "$crate" = actix-http ] && feat="--features http2,ws,compress-gzip,compress-brotli,compress-zstd"
   [ "$crate" = awc ] && feat="--features compress-gzip,compress-brotli,compress-zstd"
   [ "$crate" = actix-web ] && feat="--features compress-gzip,compress-brotli,compress-zstd,macros"
-  cp $f $wt/$crate/tests/$name.rs
+  mkdir -p $wt/$crate/tests; cp $f $wt/$crate/tests/$name.rs
   echo "== demo $name in $crate WITH patch"
   cargo test -p $crate --offline $feat --test $name 2>&1 | grep -E "^test result|FAILED|panicked|^error" | head -10
   if [ "${PIPESTATUS[0]}" = 0 ]; then demo_res_with=PASS; else demo_res_with=FAIL; fi
-  git stash -q; cp $f $wt/$crate/tests/$name.rs
+  git stash -q; mkdir -p $wt/$crate/tests; cp $f $wt/$crate/tests/$name.rs
   echo "== demo $name in $crate WITHOUT patch"
   cargo test -p $crate --offline $feat --test $name 2>&1 | grep -E "^test result|FAILED|panicked|^error" | head -10
   if [ "${PIPESTATUS[0]}" = 0 ]; then demo_res_without=PASS; else demo_res_without=FAIL; fi
